@@ -14,7 +14,7 @@ ASSUMPTIONS = ['harness RESP reader and trace writer are correct',
 
 
 def run(ctx):
-    ctx.model_check('MC_Data', 'MC_C01', workers=8, timeout=900)
+    ctx.model_check('MC_Data', 'MC_C01' if ctx.quick else 'MC_C01_full', workers=12, timeout=1500)
     paths = gen.generate_paths(ctx, 'MC_Data', 'MC_C01_gen', limit=3000 if ctx.quick else None)
     ctx.extra_cov['generated_paths'] = len(paths)
     srv = ctx.new_server()
